@@ -304,6 +304,18 @@ def r3_access_statements(ctx, rep):
            "entities are first collapsed into a name -> entity mapping: a derived type and the generic interface "
            "of the same name share one key and only one of them receives the access statement", py.nloc(pa))
     if ent_loop:
+        # a derived type and the generic interface that overloads its constructor have the same name, and `public :: t` is meant
+        # for both: the entry of a name must still be there when the second entity of that name is reached, i.e. it is not
+        # removed (del / pop) inside the loop that walks the entities
+        removed = [n for n in ast.walk(ent_loop[0])
+                   if (isinstance(n, ast.Delete) and any("attr_dict" in ast.unparse(t) for t in n.targets))
+                   or (isinstance(n, ast.Call) and call_name(n) in ("self.attr_dict.pop", "self.attr_dict.popitem", "self.attr_dict.clear"))]
+        rep.ob("process_attribs: an access statement reaches every entity of that name", not removed,
+               "entries are kept until all entities have been visited" if not removed else
+               f"`{ast.unparse(removed[0])[:50]}` removes the name's entry while the entities are still being visited: after the type "
+               f"`t` has taken `public :: t`, the constructor interface `t` finds nothing and keeps the default of the scope - in a "
+               f"`private` module it is not exported, and `x = t(...)` in a using unit is not resolved",
+               py.nloc(removed[0]) if removed else py.nloc(ent_loop[0]))
         lists = [x.value for x in ent_loop[0].iter.args if isinstance(x, ast.Constant)]
         ok = lists == ATTR_LISTS
         rep.ob("process_attribs entity lists (types before interfaces)", ok, f"iterates {lists}", py.nloc(ent_loop[0]))
